@@ -30,6 +30,7 @@ WITH THE SOFTWARE OR THE USE OR OTHER DEALINGS IN THE SOFTWARE.
 #include "CgTypes.h"
 
 #include <common/TypeUtils.h>
+#include <common/VerifHooks.h>
 #include <minisat/mtl/Vec.h>
 #include <pterms/PtStructs.h>
 #include <symbols/SymRef.h>
@@ -177,6 +178,7 @@ class EnodeAllocator : public RegionAllocator<uint32_t>
         if (v >= (static_cast<uint32_t>(-1) >> 2)) { throw OutOfMemoryException(); }
         ERef eref{v};
         ++n_enodes;
+        OSMT_VERIF_SCHED("cgid");
         new (lea(eref)) Enode(symbol, children, eref, term);
         return eref;
     }
